@@ -177,4 +177,16 @@ PROPS.update({
     },
 })
 
+PROPS.update({
+    "C19": {
+        "title": "Succinctness",
+        "rule": "Sizes are measured on the canonical compressed serialization (and compared with serialized_size) along geometric ladders: degree 2..256 (Marlin, Sonic, streaming; IPA incl. non-powers of two), (1..5 variables) x (degree 1..3) for PST13, 1..10 variables multilinear PST, 0..10 variables Hyrax, degree 3..16383 / 2..14 variables for Ligero / Brakedown; random degree-bound and hiding settings, 1..3 polynomials, 1..3 points. Laws (exact byte counts): KZG family constant commitment and per-point proof, batch proof == 8 + points * proof, independent of the number of polynomials; PST13 / multilinear PST one group element per variable; IPA 2*log2(d+1) round elements; Hyrax 2^(n/2) row commitments and z entries per polynomial; Ligero / Brakedown commitment 64 bytes and proof <= 4 x min over power-of-two row counts of a byte-exact model of the proof (t paths, t columns, opening vectors) -- evaluated separately where t is below the codeword length and where it is capped by it." + DIST,
+        "required_classes": ["constant-size", "one-element-per-variable", "two-elements-per-round", "square-root-size", "proof-within-4x-of-best-shape[t-below-codeword-length]"],
+        "technique": "runtime monitoring: size-law oracle over serialized artefacts along geometric size ladders",
+        "level_text": "Every law is an exact byte count (or, for the code-based schemes, a bound against a byte-exact model minimised over matrix shapes) evaluated on real serialized commitments and proofs across three orders of magnitude of polynomial size.",
+        "design_ref": "5 (C19)",
+        "assumptions": TRUST + ["compressed point sizes: BLS12-381 G1 48, G2 96, JubJub 32, scalars 32 bytes"],
+    },
+})
+
 ALL_IDS = ["C%02d" % i for i in range(1, 20)]
